@@ -418,3 +418,35 @@ package ipfscluster
 //@   loop 1 (for)
 //@     invariant [republish-before-expiry] sendN > old(sendN) ==> (sendFailed ==> lastResetD == lastTTL / 4) && (!sendFailed ==> lastResetD == lastTTL / 2)
 //@   modifies sendN, sendFailed, lastResetD, lastTTL, heap(api.Metric)
+
+// ---- C15: the cluster section's saved form: every setting is written from the field of the same name ----
+//@ func (cfg *Config) toConfigJSON
+//@   property C15
+//@   requires cfg != nil
+//@   loop 1 (range cfg.ListenAddr)
+//@     invariant len(listenAddrs) == idx1 && forall j int :: 0 <= j && j < idx1 ==> listenAddrs[j] == cfg.ListenAddr[j].String()
+//@   loop 2 (range cfg.PeerAddresses)
+//@     invariant jcfg != nil && fresh(jcfg) && len(jcfg.PeerAddresses) == idx2 && forall j int :: 0 <= j && j < idx2 ==> jcfg.PeerAddresses[j] == cfg.PeerAddresses[j].String()
+//@     invariant forall q *configJSON :: !fresh(q) ==> *q == old(*q)
+//@     invariant jcfg.Peername == cfg.Peername && jcfg.ReplicationFactorMin == cfg.ReplicationFactorMin && jcfg.ReplicationFactorMax == cfg.ReplicationFactorMax && jcfg.LeaveOnShutdown == cfg.LeaveOnShutdown && jcfg.EnableRelayHop == cfg.EnableRelayHop
+//@     invariant len(jcfg.ListenMultiaddress) == len(cfg.ListenAddr) && forall j int :: 0 <= j && j < len(cfg.ListenAddr) ==> jcfg.ListenMultiaddress[j] == cfg.ListenAddr[j].String()
+//@     invariant jcfg.ConnectionManager != nil && jcfg.ConnectionManager.HighWater == cfg.ConnMgr.HighWater && jcfg.ConnectionManager.LowWater == cfg.ConnMgr.LowWater && jcfg.ConnectionManager.GracePeriod == cfg.ConnMgr.GracePeriod.String()
+//@     invariant jcfg.DialPeerTimeout == cfg.DialPeerTimeout.String() && jcfg.StateSyncInterval == cfg.StateSyncInterval.String() && jcfg.PinRecoverInterval == cfg.PinRecoverInterval.String() && jcfg.MonitorPingInterval == cfg.MonitorPingInterval.String() && jcfg.PeerWatchInterval == cfg.PeerWatchInterval.String() && jcfg.MDNSInterval == cfg.MDNSInterval.String()
+//@     invariant jcfg.DisableRepinning == cfg.DisableRepinning && jcfg.PeerstoreFile == cfg.PeerstoreFile
+//@   ensures [peername] err == nil ==> jcfg != nil && jcfg.Peername == cfg.Peername
+//@   ensures [replication-factors] err == nil ==> jcfg.ReplicationFactorMin == cfg.ReplicationFactorMin && jcfg.ReplicationFactorMax == cfg.ReplicationFactorMax
+//@   ensures [leave-on-shutdown] err == nil ==> jcfg.LeaveOnShutdown == cfg.LeaveOnShutdown
+//@   ensures [listen-multiaddress] err == nil ==> len(jcfg.ListenMultiaddress) == len(cfg.ListenAddr) && forall j int :: 0 <= j && j < len(cfg.ListenAddr) ==> jcfg.ListenMultiaddress[j] == cfg.ListenAddr[j].String()
+//@   ensures [enable-relay-hop] err == nil ==> jcfg.EnableRelayHop == cfg.EnableRelayHop
+//@   ensures [connection-manager] err == nil ==> jcfg.ConnectionManager != nil && jcfg.ConnectionManager.HighWater == cfg.ConnMgr.HighWater && jcfg.ConnectionManager.LowWater == cfg.ConnMgr.LowWater && jcfg.ConnectionManager.GracePeriod == cfg.ConnMgr.GracePeriod.String()
+//@   ensures [dial-peer-timeout] err == nil ==> jcfg.DialPeerTimeout == cfg.DialPeerTimeout.String()
+//@   ensures [state-sync-interval] err == nil ==> jcfg.StateSyncInterval == cfg.StateSyncInterval.String()
+//@   ensures [pin-recover-interval] err == nil ==> jcfg.PinRecoverInterval == cfg.PinRecoverInterval.String()
+//@   ensures [monitor-ping-interval] err == nil ==> jcfg.MonitorPingInterval == cfg.MonitorPingInterval.String()
+//@   ensures [peer-watch-interval] err == nil ==> jcfg.PeerWatchInterval == cfg.PeerWatchInterval.String()
+//@   ensures [mdns-interval] err == nil ==> jcfg.MDNSInterval == cfg.MDNSInterval.String()
+//@   ensures [disable-repinning] err == nil ==> jcfg.DisableRepinning == cfg.DisableRepinning
+//@   ensures [peerstore-file] err == nil ==> jcfg.PeerstoreFile == cfg.PeerstoreFile
+//@   ensures [peer-addresses] err == nil ==> len(jcfg.PeerAddresses) == len(cfg.PeerAddresses) && forall j int :: 0 <= j && j < len(cfg.PeerAddresses) ==> jcfg.PeerAddresses[j] == cfg.PeerAddresses[j].String()
+//@   ensures [follower-mode] err == nil ==> jcfg.FollowerMode == cfg.FollowerMode
+//@   modifies nothing
